@@ -321,7 +321,10 @@ impl Report {
         }
         let nviol = new_violations.len();
         let wall = self.start.elapsed().as_secs_f64();
-        let broken = self.nontrivial.len() < 2 || self.evaluations == 0;
+        // a Miri shard of the quick tier interprets a single tiny input (about 20 s); every other run must have seen at
+        // least two distinct non-trivial cases
+        let min_cases = if leg.map_or(false, |l| l.starts_with("miri")) { 1 } else { 2 };
+        let broken = self.nontrivial.len() < min_cases || self.evaluations == 0;
         let mut coverage = Map::new();
         coverage.insert("evaluations".into(), json!(self.evaluations));
         coverage.insert("distinct_nontrivial".into(), json!(self.nontrivial.len()));
